@@ -301,6 +301,12 @@ def child_main(db, log, crash_at, scenario, seed, scratch):
             return r
 
         def sync_all():
+            if "bulk" in scenario:
+                # every recorded individual grows before the final flush: sync_all is then ONE transaction of several
+                # megabytes (more than SQLite's page cache, so changed pages reach the database file before the commit and
+                # only the rollback journal can take them back)
+                for q in p.individuals:
+                    q.custom["blob"] = "x" * 90000
             if contend is not None:
                 contend["in_sync_all"] = True
                 if contend.get("holder") is not None:     # the competing connection finishes before the final flush
@@ -510,7 +516,7 @@ def check_point(ctx, evs, rb, lines, pending, scenario=()):
 
 
 SCEN_QUICK = [("nsga2", 3, 2, 1), ("nsga2", 3, 2, 2), ("epsmoea", 3, 2, 1), ("sweep", 3, 2, 2), ("nsga2", 3, 2, 1, "contend"), ("sweep", 3, 2, 1, "late-store"),
-              ("sweep", 3, 2, 1, "faulty"), ("nsga2", 2, 2, 1, "worstcase")]
+              ("sweep", 3, 2, 1, "faulty"), ("nsga2", 2, 2, 1, "worstcase"), ("sweep", 20, 2, 1, "bulk")]
 SCEN_THOROUGH = [("nsga2", 4, 3, 1), ("nsga2", 4, 3, 3), ("epsmoea", 3, 2, 2), ("epsmoea", 4, 3, 1), ("sweep", 3, 2, 1), ("sweep", 5, 2, 3), ("nsga2", 3, 2, 2, "contend"), ("epsmoea", 3, 2, 1, "contend"), ("nsga2", 3, 2, 2, "late-store"),
                  ("nsga2", 3, 2, 2, "faulty"), ("epsmoea", 3, 2, 1, "faulty"), ("nsga2", 3, 2, 2, "worstcase")]
 
@@ -557,7 +563,9 @@ def run(ctx):
                 if e[0] == "journal-mode":
                     journal_modes.add(e[2])
             points = list(range(created, total + 1))
-            if ctx.quick and len(points) > 220:
+            if "bulk" in scen:
+                points = points[-110:]          # the final flush (one large transaction) and the end of the run
+            elif ctx.quick and len(points) > 220:
                 # every statement/commit boundary of the first part, a sample of the rest
                 points = points[:120] + sorted(rng.sample(points[120:], 100))
             jobs = [("exit", k) for k in points]
